@@ -30,6 +30,7 @@ REQUESTS = [
     ('ok_text', 'echo_text', [('s', 'héllo')]),
     ('ok_big', 'repeat', [('n', 700)]),
     ('gen', 'count', [('n', 4)]),
+    ('gen0', 'count', [('n', 0)]),
     ('chunks', 'chunks', [('n', 5), ('size', 3)]),
     ('chunks0', 'chunks', [('n', 0), ('size', 3)]),
     ('fault_client', 'fail', [('code', 'Client.Custom'), ('msg', 'm1')]),
@@ -62,7 +63,8 @@ def limit_grid(blen, tier, rng):
         g += [(max(blen // 2, 1), 3), (blen + 5, 1), (1, 1), (blen * 2 + 1, blen or 1), (max(blen, 1), 1)]
         for _ in range(4):
             g.append((rng.randint(1, max(2 * blen, 4)), rng.randint(1, max(blen, 2))))
-    return sorted(set(g))
+    g = sorted(set(g))
+    return [x for x in g if x[0] > 10000] + [x for x in g if x[0] <= 10000]   # unlimited first: it is the reference
 
 
 def cl_classes(blen, maxlen):
@@ -221,7 +223,7 @@ def run(spec, R):
 
     reqs = []
     for rname, meth, args in REQUESTS:
-        if kind == 'httprpc' and rname in ('gen',):
+        if kind == 'httprpc' and rname in ('gen', 'gen0'):
             continue        # HttpRpc as *output* protocol only serialises primitives
         reqs.append((rname, M.encode_request(kind, meth, args)))
     if kind not in ('httprpc', 'httprpc-json'):
@@ -237,6 +239,7 @@ def run(spec, R):
 
     for rname, breq in reqs:
         blen = len(breq['body'])
+        reference = None
         grid = limit_grid(blen, tier, rng) if blen else [(2 * 1024 * 1024, 8 * 1024), (64, 16)]
         for maxlen, block in grid:
             w = get_w(maxlen, block)
@@ -248,6 +251,18 @@ def run(spec, R):
                 r, viol = run_case(R, case, w, rec, box, breq, maxlen, cl, None, False)
                 full = len(r.chunks)
                 report(R, case, None, r, viol, breq)
+                # a request that fits the limit is answered exactly as without a limit
+                if clname == 'equal' and r.exc is None:
+                    obs = (r.status, r.body if (r.code or 0) < 400 or kind == 'httprpc'
+                           else (M.decode_fault(kind, r.body) or (r.body,))[0])
+                    if maxlen > 10000:
+                        reference = obs
+                    elif reference is not None and blen <= maxlen:
+                        R.count('fitting_request_compared')
+                        if obs != reference:
+                            R.violation('request of %d bytes under max_content_length=%d answered %r, without limit %r'
+                                        % (blen, maxlen, r.status, reference[0]), dict(case, abort_after=None, request=breq),
+                                        mech='limit_changes_fitting_request')
                 # the stdlib's PEP 3333 checker as a second monitor
                 r2, viol2 = run_case(R, case, w, rec, box, breq, maxlen, cl, None, True, full)
                 vv = [x for x in viol2 if x[0].startswith('escape') and 'AssertionError' in x[0]]
